@@ -1,5 +1,6 @@
 import WfProofs.PolicyLemmas
 import WfProofs.EngineReduce
+import WfProofs.EngineWaitUnrepaired
 /-!
 # C05 — retry budgets count attempts and elapsed time correctly
 
@@ -141,7 +142,73 @@ theorem C05_first_attempt (ev : Ev) (step : Nat) (ss : StepState) (nw : Nat) (no
   | nil => exact absurd hfree (freeIds_ne_nil h hlt)
   | cons i rest => exact ⟨i, by simp [orNat, orInt]⟩
 
+/-! ## a wait does not restart the count
+
+A retried invocation that suspends in `ctx.wait_for_event` is replayed — when the awaited event
+arrives, when the wait times out, when the run is resumed from a serialised context — with the
+attempt record it had when it suspended (`newWaiter` stores it, `Waiter.replay` rebuilds it): the
+replayed invocation continues with the same `retry_number`, `first_attempt_at`, last exception and
+last failure time.  (Repair of C08/handler_entered_beyond_budget:lineage_suspended_in_wait; before
+it the replay was a fresh attempt, `Waiter.replayUnrepaired`.) -/
+
+/-- what the waiter replays is the suspended invocation's own attempt (the one
+`rewind_in_progress` would re-queue) -/
+theorem C05_wait_replay_is_the_suspended_attempt (x : InProg) (wid ty : Nat) (req : Option Nat) :
+    (newWaiter x wid ty req).replay = inProgToAttempt x := rfl
+
+/-- **the replay keeps `attempts`**: once started, the replay of an invocation that suspended on
+its `k`-th retry runs with `retry_number = k`, the original `first_attempt_at` and the previous
+exception and failure time (as `C05_retry_number` for a re-queued retry) -/
+theorem C05_wait_replay_keeps_attempts (x : InProg) (wid ty : Nat) (req : Option Nat) (step : Nat)
+    (ss : StepState) (nw : Nat) (now : Int) (h : IdsOk ss nw) (hlt : ss.inProg.length < nw) (ht : x.firstAt ≠ 0) :
+    ∃ id, (addOrEnqueue (newWaiter x wid ty req).replay step ss nw now).1.inProg =
+      ss.inProg ++ [{ ev := x.ev, wid := id, snapEvents := ss.collected, snapWaiters := ss.waiters,
+                      attempts := x.attempts, firstAt := x.firstAt, lastExc := x.lastExc,
+                      lastFailedAt := x.lastFailedAt, rc := x.rc }] := by
+  unfold addOrEnqueue
+  simp only [hlt, ↓reduceIte]
+  cases hfree : freeIds ss nw with
+  | nil => exact absurd hfree (freeIds_ne_nil h hlt)
+  | cons i rest =>
+    refine ⟨i, ?_⟩
+    have h1 : orNat (some x.attempts) 0 = x.attempts := by
+      by_cases h0 : x.attempts = 0 <;> simp [orNat, h0]
+    simp [Waiter.replay, newWaiter, h1, orInt, ht]
+
+/-- hence a failure after the wait is counted on: the policy is asked with `failures = k + 1` and
+the elapsed time since the **first** attempt, not since the replay -/
+theorem C05_failure_after_wait_counts_on (cfg : Cfg) (pol : Policy) (step : Nat) (tickEv : Ev) (dc : Bool)
+    (st : State) (x : InProg) (wid ty : Nat) (req : Option Nat) (id : Nat) (snapE : Collected) (snapW : List Waiter)
+    (exc : Nat) (failedAt : Int) (c : StepCfg) (hc : cfg.find step = some c) (hretry : c.hasRetry = true) (d : Nat)
+    (hp : pol step (failedAt - x.firstAt) (x.attempts + 1) exc = .retry d) :
+    (applyRes cfg pol step tickEv dc
+        { st := st, exec := { ev := x.ev, wid := id, snapEvents := snapE, snapWaiters := snapW, attempts := x.attempts,
+                              firstAt := x.firstAt, lastExc := x.lastExc, lastFailedAt := x.lastFailedAt, rc := x.rc } }
+        (.failed exc failedAt)).cmds =
+      [.queueEvent { ev := tickEv, attempts := some (x.attempts + 1), firstAt := some x.firstAt,
+                     lastExc := some exc, lastFailedAt := some failedAt, rc := x.rc } (some step) (some d)] := by
+  simp [applyRes, retryDecision, hc, hretry, hp]
+
+/-- **unrepaired, refuted**: the fresh attempt the replay used to be starts again at
+`retry_number = 0` whatever the suspended invocation's count was -/
+theorem C05_unrepaired_wait_replay_restarts_count (x : InProg) (wid ty : Nat) (req : Option Nat) (hx : x.attempts ≠ 0) :
+    (Waiter.replayUnrepaired (newWaiter x wid ty req)).attempts = none ∧
+      orNat (Waiter.replayUnrepaired (newWaiter x wid ty req)).attempts 0 ≠ x.attempts ∧
+      orNat (newWaiter x wid ty req).replay.attempts 0 = x.attempts := by
+  refine ⟨rfl, ?_, ?_⟩
+  · simp only [Waiter.replayUnrepaired, orNat]; exact fun e => hx e.symm
+  · simp [Waiter.replay, newWaiter, orNat, hx]
+
 /-! Non-vacuity -/
+/-- an invocation on its second retry (`attempts = 2`) that suspends in a wait -/
+def C05.susp : InProg :=
+  { ev := { ty := 5, kind := .plain, uid := 1 }, wid := 0, snapEvents := [], snapWaiters := [],
+    attempts := 2, firstAt := 10, lastExc := some 7, lastFailedAt := some 12 }
+example : ∃ id, (addOrEnqueue (newWaiter C05.susp 1 6 none).replay 3 {} 1 20).1.inProg =
+    [{ ev := { ty := 5, kind := .plain, uid := 1 }, wid := id, snapEvents := [], snapWaiters := [],
+       attempts := 2, firstAt := 10, lastExc := some 7, lastFailedAt := some 12 }] :=
+  C05_wait_replay_keeps_attempts C05.susp 1 6 none 3 {} 1 20 (idsOk_empty 1) (by decide) (by decide)
+example : orNat (Waiter.replayUnrepaired (newWaiter C05.susp 1 6 none)).attempts 0 = 0 := by decide
 example : C05.executions { retry := none, wait := waitFixed 0, stop := stopAfterAttempt 3 }
     (fun _ => 0) 7 (fun _ => 0) 10 1 = 3 := by
   have := C05_attempt_budget none (waitFixed 0) 3 (fun _ => 0) 7 (fun _ => 0) (by simp) 10 (by omega)
